@@ -374,6 +374,130 @@ fn idle_tunnels_seen_from_the_client(ctx: &mut Ctx) {
     let core = Arc::new(Core::new(settings, None, hosts, Shutdown::new()).unwrap());
     trusttunnel::verif::hooks::reset();
     let rt = tokio::runtime::Builder::new_multi_thread().worker_threads(2).enable_all().build().unwrap();
+    // one direction busy, the other silent for several timeouts: the silent direction's timer fires again and again and the
+    // pipe restarts both of its loops each time (dropping whatever read was pending) - nothing may be lost or cut by that
+    for proto in ["h1", "h2"] {
+        for uploading in [true, false] {
+            let core = core.clone();
+            let desc = format!(
+                "{} CONNECT tunnel, idle timeout {} ms: {} sends one byte every {} ms for {} ms while the other side is silent",
+                proto, T_MS, if uploading { "the client" } else { "the origin" }, T_MS / 3, 3 * T_MS
+            );
+            ctx.stat("one_sided_traffic_across_timer_restarts");
+            let r: Result<(), String> = rt.block_on(async move {
+                // an origin of its own: records what it gets, sends what it is told to
+                let l = tokio::net::TcpListener::bind("127.0.0.1:0").await.map_err(|e| e.to_string())?;
+                let target = l.local_addr().unwrap().to_string();
+                let got = Arc::new(std::sync::Mutex::new(Vec::<u8>::new()));
+                let got2 = got.clone();
+                let (tx, mut rx) = tokio::sync::mpsc::unbounded_channel::<u8>();
+                tokio::spawn(async move {
+                    use tokio::io::{AsyncReadExt, AsyncWriteExt};
+                    if let Ok((s, _)) = l.accept().await {
+                        let (mut rd, mut wr) = s.into_split();
+                        tokio::spawn(async move {
+                            while let Some(b) = rx.recv().await {
+                                if wr.write_all(&[b]).await.is_err() {
+                                    break;
+                                }
+                            }
+                        });
+                        let mut buf = [0u8; 256];
+                        loop {
+                            match rd.read(&mut buf).await {
+                                Ok(0) | Err(_) => break,
+                                Ok(n) => got2.lock().unwrap().extend_from_slice(&buf[..n]),
+                            }
+                        }
+                    }
+                });
+                let n_bytes = 9usize;
+                let mut h1 = None;
+                let mut st = None;
+                let mut _sess = None;
+                if proto == "h1" {
+                    let mut s = vlive::open_h1(&core, "localhost");
+                    s.send(format!("CONNECT {} HTTP/1.1\r\nHost: {}\r\n\r\n", target, target).as_bytes());
+                    let t0 = Instant::now();
+                    while !s.received.windows(4).any(|w| w == b"\r\n\r\n") {
+                        tokio::time::sleep(Duration::from_millis(5)).await;
+                        s.poll();
+                        if s.eof || t0.elapsed() > Duration::from_secs(3) {
+                            return Err("no response to the CONNECT".into());
+                        }
+                    }
+                    h1 = Some(s);
+                } else {
+                    let Some(mut sess) = vlive::open_h2(&core, "localhost").await else { return Err("could not open the HTTP/2 session".into()) };
+                    let Some(mut x) = sess.request("CONNECT", &target, &[], false).await else { return Err("CONNECT refused by the client library".into()) };
+                    let t0 = Instant::now();
+                    while x.status.is_none() {
+                        tokio::time::sleep(Duration::from_millis(5)).await;
+                        x.poll();
+                        if x.failed || t0.elapsed() > Duration::from_secs(3) {
+                            return Err("no response to the CONNECT".into());
+                        }
+                    }
+                    st = Some(x);
+                    _sess = Some(sess);
+                }
+                let head_len = h1.as_ref().map(|h| h.received.len()).unwrap_or(0);
+                for k in 0..n_bytes {
+                    let b = b'a' + k as u8;
+                    if uploading {
+                        match (h1.as_mut(), st.as_mut()) {
+                            (Some(h), _) => {
+                                h.send(&[b]);
+                            }
+                            (_, Some(x)) => {
+                                x.send(&[b], false);
+                            }
+                            _ => {}
+                        }
+                    } else {
+                        let _ = tx.send(b);
+                    }
+                    tokio::time::sleep(Duration::from_millis(T_MS / 3)).await;
+                    if let Some(h) = h1.as_mut() {
+                        h.poll();
+                        if h.eof {
+                            return Err(format!("the tunnel was closed after {} of {} bytes although a byte passed every {} ms", k + 1, n_bytes, T_MS / 3));
+                        }
+                    }
+                    if let Some(x) = st.as_mut() {
+                        x.poll();
+                        if x.ended || x.failed {
+                            return Err(format!("the stream was ended after {} of {} bytes although a byte passed every {} ms", k + 1, n_bytes, T_MS / 3));
+                        }
+                    }
+                }
+                tokio::time::sleep(Duration::from_millis(60)).await;
+                let want: Vec<u8> = (0..n_bytes).map(|k| b'a' + k as u8).collect();
+                let have: Vec<u8> = if uploading {
+                    got.lock().unwrap().clone()
+                } else {
+                    match (h1.as_mut(), st.as_mut()) {
+                        (Some(h), _) => {
+                            h.poll();
+                            h.received[head_len..].to_vec()
+                        }
+                        (_, Some(x)) => {
+                            x.poll();
+                            x.received.clone()
+                        }
+                        _ => vec![],
+                    }
+                };
+                if have != want {
+                    return Err(format!("the other end received {:?}, {:?} was sent", String::from_utf8_lossy(&have), String::from_utf8_lossy(&want)));
+                }
+                Ok(())
+            });
+            if let Err(e) = r {
+                ctx.oracle_failure("active_tunnel_disturbed_by_timer", &format!("{}: {}", desc, e));
+            }
+        }
+    }
     for proto in ["h1", "h2"] {
         for payload in [true, false] {
             let core = core.clone();
